@@ -148,7 +148,7 @@ func (p *Peer) SetReplicator(ctx context.Context, repInfo peer.AddrInfo, collect
 }
 
 // pushHeadsForAllDocs gets all the docID for the given collection and sends them to get
-// pushed to the given peer.
+// pushed to the given peer, followed by the collection-level heads if the collection is branchable.
 func (p *Peer) pushHeadsForAllDocs(ctx context.Context, col client.Collection, peerID peer.ID) error {
 	clientTxn, err := p.db.NewTxn(ctx, false)
 	if err != nil {
@@ -180,6 +180,15 @@ func (p *Peer) pushHeadsForAllDocs(ctx context.Context, col client.Collection, p
 		if err != nil {
 			return err
 		}
+	}
+	// A branchable collection has a history of its own, the documents' heads don't link to it.
+	err = p.pushCollectionHeads(ctx, col, peerID, false)
+	if err != nil {
+		log.ErrorE(
+			"Failed to push collection heads",
+			err,
+			corelog.Any("Collection", col.Name()),
+		)
 	}
 	return nil
 }
